@@ -12,6 +12,7 @@ use std::io::{self, Read};
 use std::pin::Pin;
 use std::task::{Context, Poll, Waker};
 
+use mpd_protocol::command::Command;
 use mpd_protocol::response::{Error as RespError, Frame, Response};
 use mpd_protocol::{AsyncConnection, Connection, MpdProtocolError};
 use tokio::io::{AsyncRead, ReadBuf};
@@ -83,6 +84,28 @@ impl Read for &mut Script {
         let d = self.do_read(buf.len())?;
         buf[..d.len()].copy_from_slice(&d);
         Ok(d.len())
+    }
+}
+
+/// what the connection writes goes nowhere: the sessions only look at what `receive` returns
+impl io::Write for &mut Script {
+    fn write(&mut self, buf: &[u8]) -> io::Result<usize> {
+        Ok(buf.len())
+    }
+    fn flush(&mut self) -> io::Result<()> {
+        Ok(())
+    }
+}
+
+impl tokio::io::AsyncWrite for Script {
+    fn poll_write(self: Pin<&mut Self>, _: &mut Context<'_>, b: &[u8]) -> Poll<io::Result<usize>> {
+        Poll::Ready(Ok(b.len()))
+    }
+    fn poll_flush(self: Pin<&mut Self>, _: &mut Context<'_>) -> Poll<io::Result<()>> {
+        Poll::Ready(Ok(()))
+    }
+    fn poll_shutdown(self: Pin<&mut Self>, _: &mut Context<'_>) -> Poll<io::Result<()>> {
+        Poll::Ready(Ok(()))
     }
 }
 
@@ -200,11 +223,26 @@ fn session(flavour: &str, chunks: Vec<Vec<u8>>, term: Term, extra: usize) -> Str
     let max_items = script.chunks.iter().map(|c| c.len()).sum::<usize>() + 3 + extra;
     let mut items = Vec::new();
     let mut left = extra;
+    // upper-case flavours: a request is SENT before every receive call (and after every cancelled
+    // one): sending must not disturb what has been received and not yet returned
+    let sends = flavour.chars().all(|c| c.is_ascii_uppercase());
+    let flavour = flavour.to_ascii_lowercase();
+    let flavour = flavour.as_str();
+    let mut nsend = 0usize;
     if flavour == "s" {
         let mut conn = Connection::connect(&mut script).expect("connect");
         // count reads of the session only
         let reads0 = 1;
         loop {
+            if sends {
+                nsend += 1;
+                if nsend % 3 == 0 {
+                    let l = mpd_protocol::command::CommandList::new(Command::new("ping")).command(Command::new("status"));
+                    conn.send_list(l).expect("send_list");
+                } else {
+                    conn.send(Command::new("ping")).expect("send");
+                }
+            }
             let r = conn.receive();
             let (s, is_resp) = fmt_item(&r);
             items.push(s);
@@ -232,6 +270,18 @@ fn session(flavour: &str, chunks: Vec<Vec<u8>>, term: Term, extra: usize) -> Str
                 // one is started: the results must be those of uninterrupted calls
                 let mut tries = 0usize;
                 loop {
+                    if sends {
+                        nsend += 1;
+                        let sent = if nsend % 3 == 0 {
+                            let l = mpd_protocol::command::CommandList::new(Command::new("ping")).command(Command::new("status"));
+                            poll_ready(conn.send_list(l))
+                        } else {
+                            poll_ready(conn.send(Command::new("noidle")))
+                        };
+                        if sent.is_none() {
+                            return "HANG".into();
+                        }
+                    }
                     let polled = {
                         let mut f = std::pin::pin!(conn.receive());
                         let mut cx = Context::from_waker(Waker::noop());
@@ -249,6 +299,12 @@ fn session(flavour: &str, chunks: Vec<Vec<u8>>, term: Term, extra: usize) -> Str
                     }
                 }
             } else {
+                if sends {
+                    nsend += 1;
+                    if poll_ready(conn.send(Command::new("ping"))).is_none() {
+                        return "HANG".into();
+                    }
+                }
                 let Some(r) = poll_ready(conn.receive()) else { return "HANG".into() };
                 r
             };
@@ -746,11 +802,16 @@ pub fn gen(cfg: &Cfg) -> Vec<String> {
                 let h = hex(&stream);
                 // the same stream under several segmentations and both flavours
                 let nseg = if stream.len() <= 300 { 4 } else { 3 };
-                for _ in 0..nseg {
+                for k in 0..nseg {
                     let seg = gen_seg(&mut r, stream.len());
+                    // further calls after the end of the session must repeat its last verdict
+                    let extra = if k == 0 { 2 } else { 0 };
                     for fl in ["s", "a", "c"] {
-                        ops.push(format!("proto.recv {fl} {h} {seg} {term} 0"));
+                        ops.push(format!("proto.recv {fl} {h} {seg} {term} {extra}"));
                     }
+                    // the same with requests sent between the receive calls
+                    let fl = ["S", "A", "C"][(i + k) % 3];
+                    ops.push(format!("proto.recv {fl} {h} {seg} {term} {extra}"));
                 }
                 // all two-way splits of short streams (every stream in thorough up to 4 KiB)
                 let lim = if cfg.thorough { 1200 } else { 300 };
@@ -787,6 +848,20 @@ pub fn gen(cfg: &Cfg) -> Vec<String> {
                 let rs: Vec<AbsResp> = (0..k).map(|_| gen_resp(&mut r, big)).collect();
                 let len = enc_all(&rs).len();
                 let ser = ser_resps(&rs);
+                if i % 4 == 0 {
+                    // pipelined responses in ONE read over a transport that then fails instead of
+                    // ending (a silent open socket with a read timeout): every buffered response
+                    // must still be returned; and sessions with requests sent between the calls
+                    let stream = enc_all(&rs);
+                    let h = hex(&stream);
+                    let kind = r.below(IO_KINDS.len());
+                    for fl in ["s", "a", "S", "A", "C"] {
+                        ops.push(format!("proto.recv {fl} {h} {} err{kind} 1", stream.len()));
+                    }
+                    let seg = gen_seg(&mut r, stream.len());
+                    let fl = ["S", "A", "C"][i / 4 % 3];
+                    ops.push(format!("proto.recv {fl} {h} {seg} eof 1"));
+                }
                 for _ in 0..3 {
                     let seg = gen_seg(&mut r, len);
                     let fl = if r.chance(1, 2) { "s" } else { "a" };
@@ -854,8 +929,8 @@ pub fn gen(cfg: &Cfg) -> Vec<String> {
                 let ser = ser_resps(&rs);
                 for cut in 0..=len {
                     let seg = gen_seg(&mut r, cut);
-                    let fl = if (cut + i) % 2 == 0 { "s" } else { "a" };
-                    ops.push(format!("proto.abs {fl} {ser} {seg} {cut} {}", (cut % 3 == 0) as usize));
+                    let fl = ["s", "a", "S", "C", "a", "s", "A", "c"][(cut + i) % 8];
+                    ops.push(format!("proto.abs {fl} {ser} {seg} {cut} {}", if cut % 3 == 0 { 1 + cut % 2 } else { 0 }));
                 }
             }
             // greeting cut at every position
